@@ -62,9 +62,7 @@ EXEMPT = {
     "print_saturation_indices": {("store", "logk"): _R["logk"], ("store", "mu_terms_in_logk"): _R["mu"],
                                  ("store", "pr_in"): "pr_in reset: print_all does the same through set_pr_in_false() on every path that does not print this block (unit C09.print_all.state_reset_independent_of_output_switches)",
                                  ("call", "map::operator[]"): "pe_x[default_pe_x]: default_pe_x names an entry of pe_x by construction of the solution (not machine checked)"},
-    "print_gas_phase": {("call", "Set_total_moles"): "repeats what xgas_save derives from the model itself for the record it stores (unit C09.xgas_save.saved_amounts_volume_and_pressures_come_from_the_model_not_from_the_printed_record; /repo 0c709718)",
-                        ("call", "Set_volume"): "repeats what xgas_save derives from the model itself for the record it stores (same unit)",
-                        ("store", "p_soln_x"): "p_soln_x := 0 for a component that is not in the model: xgas_save stores 0 for such a component whatever p_soln_x holds (same unit)"},
+    # print_gas_phase: no exception (since /repo 9b8d1e69 it writes locals only; what is stored comes from xgas_save: unit C09.xgas_save...)
     # history: before /repo 0c709718 there was NO such exception: xgas_save() copies the working gas phase, so the stored volume and total moles of a
     # fixed-pressure gas phase depend on whether the report was printed (native demo: $OUT/demo/gasvol.cpp)
 }
